@@ -138,7 +138,7 @@ func c10OneGeometry(c *Ctx, k c10Case, sample bool) {
 			c.R.Case(seqKey(ts, g, pool, []int{i}), false, "c10.decode-error."+ts.Short)
 			if ts.Lossless {
 				c.R.Oracle("c10_lossless")
-				c.R.Fail("oracle", "c10_lossless", "c10:"+ts.Short+":lossless-mismatch", fmt.Sprintf("decoder rejects the codec's own stream: %v", err), in(map[string]interface{}{"frame": Hex(pool[i])}))
+				c.R.Fail("oracle", "c10_lossless", "c10:"+ts.Short+":lossless-mismatch"+cls, fmt.Sprintf("decoder rejects the codec's own stream: %v", err), in(map[string]interface{}{"frame": Hex(pool[i])}))
 			}
 			return
 		}
